@@ -640,6 +640,8 @@ class Inliner(object):
 
             def make(v):
                 val = v if v is not None else ast.Constant(value=None)
+                if len(tg) == 1 and isinstance(tg[0], ast.Name) and isinstance(val, ast.Name) and val.id == tg[0].id:
+                    return []       # `x = helper(...)` whose helper returns its own `x`: nothing to bind
                 return [ast.copy_location(ast.Assign(targets=copy.deepcopy(tg), value=val), st)]
             new = _rewrite_returns(body, make)
             if not _ends_with_return(body):
